@@ -242,6 +242,27 @@ func (i *IOCbor) Write(ctx context.Context, ipfs coreiface.CoreAPI, obj interfac
 			o.SetKey(nil)
 		}
 
+		// With a link key no block may hold the links in clear: an entry that
+		// does not carry its sealed links (e.g. one decoded from a block and
+		// stored again) is sealed first, the way it was when it was created
+		// (before its key was attached).
+		if i.linkKey != nil && len(o.GetNext())+len(o.GetRefs()) > 0 && o.GetAdditionalData()[iface.KeyEncryptedLinks] == "" {
+			unkeyed := o.Copy()
+			unkeyed.SetKey(nil)
+
+			sealed, err := i.PreSign(unkeyed)
+			if err != nil {
+				return cid.Undef, err
+			}
+
+			withLinks := o.Copy()
+			for k, v := range sealed.GetAdditionalData() {
+				withLinks.SetAdditionalDataValue(k, v)
+			}
+
+			o = withLinks
+		}
+
 		obj = jsonable.ToJsonableEntry(o)
 		break
 	}
